@@ -295,6 +295,38 @@ func monC02(c *drv.Ctx) {
 		cs.Count(depth >= 2, "path", path, depth)
 	})
 
+	// (3c) multi-megabyte values (beyond 1 MiB and 4 MiB), first on fresh pooled decoders, then again
+	c.Stage("huge-values", 12, true, func(cs *drv.Case) {
+		size := []int{1<<20 + 5, 3 << 19, 4<<20 + 1, 6 << 20}[cs.Idx%4]
+		mode := cs.Idx / 4
+		runtime.GC() // two cycles empty sync.Pool: the decoders of this case start without a buffer
+		runtime.GC()
+		s := ref.Value{T: ref.STRING, S: gen.Bytes(cs.R, size)}
+		var v ref.Value
+		switch mode {
+		case 0:
+			v = s
+		case 1:
+			v = ref.Value{T: ref.STRUCT, Fields: []ref.Field{{ID: 1, V: ref.Value{T: ref.I32, I: 7}}, {ID: 2, V: s}, {ID: 3, V: ref.Value{T: ref.BOOL, Bool: true}}}}
+		default:
+			elems := make([]ref.Value, size/8)
+			for i := range elems {
+				elems[i] = ref.Value{T: ref.I64, I: int64(i) * 0x0101010101}
+			}
+			v = ref.Value{T: ref.LIST, VT: ref.I64, Elems: elems}
+		}
+		e := v.Encode(nil)
+		small := ref.Value{T: ref.STRING, S: []byte("after")}
+		se := small.Encode(nil)
+		for _, sched := range []int{doubles.SchedHuge, doubles.SchedRandom, doubles.SchedBuf} {
+			cs.Desc = M{"value_bytes": len(e), "mode": mode, "schedule": doubles.SchedNames[sched]}
+			c02Stream(cs, []ref.Value{v, small, v}, [][]byte{e, se, e}, []byte{1, 2}, sched, false)
+			c02Stream(cs, []ref.Value{v}, [][]byte{e}, nil, sched, true)
+		}
+		cs.Count(true, "huge", size, mode)
+		cs.C.Obs("multi-megabyte values", 1)
+	})
+
 	// (4) long strings around buffer boundaries, inside containers
 	lens := gen.StringLens
 	c.Stage("long-strings", int64(len(lens)*4), true, func(cs *drv.Case) {
